@@ -22,6 +22,10 @@ const IPV6_RTT_ADVANTAGE: Duration = Duration::from_millis(3);
 /// happens when its biased RTT is at least this much better than the current path's.
 const RTT_SWITCHING_MIN: Duration = Duration::from_millis(5);
 
+/// Verification hook (C24): the two constants above, for the cross-check with the model.
+#[cfg(feature = "verif-hooks")]
+pub(crate) const VERIF_CONSTS: (Duration, Duration) = (IPV6_RTT_ADVANTAGE, RTT_SWITCHING_MIN);
+
 /// Whether a transport is a primary path or a backup.
 ///
 /// Primary paths are used preferentially.  Backup paths are only used when no primary
